@@ -43,7 +43,20 @@ struct vs_rmap { bool present; struct vs_raw val; };
 struct vs_rkv { struct vs_key first; struct vs_raw second; };
 struct vs_optraw { bool has; struct vs_raw v; };
 struct vs_raw vs_rslot_other;
-static inline void vs_rmap_insert(struct vs_rmap *m, struct vs_key k, struct vs_raw v) { if (k.isK && !m->present) { m->present = 1; m->val = v; } }
+/* insert: an existing entry is kept; the result is (position of the entry of that key, whether it was inserted) */
+struct vs_rins { struct vs_rmap *first; bool second; };
+struct vs_rmap vs_rmap_other;            /* the entry of some other key */
+static inline struct vs_rins vs_rmap_insert(struct vs_rmap *m, struct vs_key k, struct vs_raw v)
+{
+    struct vs_rins r;
+    if (!k.isK) { bool ins; r.first = &vs_rmap_other; vs_rmap_other.present = 1; if (ins) vs_rmap_other.val = v; r.second = ins; return r; }
+    r.first = m; r.second = !m->present;
+    if (!m->present) { m->present = 1; m->val = v; }
+    return r;
+}
+/* std::string comparison / concatenation on keys-as-strings: equality of the abstract values; a concatenation is some other string */
+static inline bool vs_key_ne(struct vs_key a, struct vs_key b) { bool d; return (a.isK != b.isK) ? 1 : d; }
+static inline struct vs_key vs_key_cat(void) { struct vs_key k; return k; }
 static inline struct vs_raw *vs_rmap_index(struct vs_rmap *m, struct vs_key k)
 {
     if (!k.isK) return &vs_rslot_other;
@@ -63,7 +76,9 @@ HCI = 'std::__detail::_Node_const_iterator<std::pair<std::string, std::shared_pt
 RCI = 'std::__detail::_Node_const_iterator<std::pair<std::string, Pistache::Http::Header::Raw>, false, true>'
 HI = 'std::__detail::_Node_iterator<std::pair<std::string, std::shared_ptr<Pistache::Http::Header::Header>>, false, true>'
 RI = 'std::__detail::_Node_iterator<std::pair<std::string, Pistache::Http::Header::Raw>, false, true>'
+RINS = 'std::pair<std::__detail::_Node_iterator<std::pair<std::string, Pistache::Http::Header::Raw>, false, true>, bool>'
 TYPES = {
+    RINS: 'struct vs_rins',
     HB: 'struct vs_hmap *', HCI: 'struct vs_hmap *', HI: 'struct vs_hmap *', RB: 'struct vs_rmap *', RCI: 'struct vs_rmap *', RI: 'struct vs_rmap *', 'decltype(__cont.end())': 'void *',
     'std::string': 'struct vs_key', H: 'struct vs_hdr *', 'std::shared_ptr<Header>': 'struct vs_hdr *', 'std::shared_ptr<const Pistache::Http::Header::Header>': 'struct vs_hdr *',
     HM: 'struct vs_hmap', RM: 'struct vs_rmap', 'Pistache::Http::Header::Raw': 'struct vs_raw', 'Raw': 'struct vs_raw',
@@ -89,6 +104,12 @@ STUBS = {
     'field:std::pair<std::string, std::shared_ptr<Pistache::Http::Header::Header>>::second': '($)->val', 'field:std::pair<std::string, Pistache::Http::Header::Raw>::second': '($)->val',
     'make_pair|pair<typename __decay_and_strip<basic_string<char>>::__type, typename __decay_and_strip<const Raw &>::__type> (std::basic_string<char> &&, const Pistache::Http::Header::Raw &)': {'expr': '((struct vs_rkv){($0), ($1)})'},
     RM + '::insert': {'expr': 'vs_rmap_insert($this, ($0).first, ($0).second)'},
+    # the result of insert used (auto res = m.insert(...); res.second; res.first->second)
+    'field:' + RINS + '::second': '$.second', 'field:' + RINS + '::first': '$.first',
+    'operator!=|std::string,std::string': {'expr': 'vs_key_ne($0, $1)'}, 'operator==|std::string,std::string': {'expr': '(!vs_key_ne($0, $1))'},
+    'operator+|std::string,const char *': {'expr': 'vs_key_cat()'}, 'operator+|std::string,std::string': {'expr': 'vs_key_cat()'}, 'operator+|std::string,char': {'expr': 'vs_key_cat()'},
+    'ctor:Pistache::Http::Header::Raw/2': {'expr': '((struct vs_raw){($0), ($1)})'},
+    'operator=|Pistache::Http::Header::Raw,Pistache::Http::Header::Raw': {'expr': '(($0) = ($1))'},
     HM + '::find': {'expr': 'vs_hmap_find($this, $0)'}, RM + '::find': {'expr': 'vs_rmap_find($this, $0)'},
     'Pistache::Http::Header::Raw::name': {'expr': '(($this)->name_)'}, 'Pistache::Http::Header::Raw::value': {'expr': '(($this)->value_)'}, 'end': {'expr': '0'},
     'operator=|%s,%s' % (H, H): {'expr': '(($0) = ($1))'},
@@ -125,7 +146,7 @@ DEVIRT = {('Pistache_Http_Header_Collection_add', 'name'): 'vs_hdr_name'}
 FUNCTIONS += [
     {'q': C + 'addRaw', 'contract': """
         requires FRESH(this, sizeof(*this)) && FRESH(raw, sizeof(*raw)) && vs_exc == 0
-        assigns this->rawHeaders, vs_rslot_other
+        assigns this->rawHeaders, vs_rslot_other, vs_rmap_other
         ensures vs_exc == 0 && PTR_EQ(RET, this)
         # C16: every header of a parsed message is kept as raw text under its name, the first occurrence winning
         ensures OLD(this->rawHeaders.present) ==> (this->rawHeaders.present && this->rawHeaders.val.value_.id == OLD(this->rawHeaders.val.value_.id))
